@@ -150,5 +150,62 @@ func init() {
 			}
 		}
 		c.Fact("paginate.pagesize_guard", guards)
+
+		// (6) the cursor codec (abstract in the model: dec (enc k) = k, enc k non-empty; both laws are
+		// checked on every cursor the harness sees) — anchored as text: there is no length cap or
+		// other precondition on what decodeCursor accepts
+		codec := map[string]string{}
+		for _, f := range []string{"encodeCursor", "decodeCursor"} {
+			if fd := c.Func("mcp", "", f); fd != nil {
+				codec[f] = c.Src(fd.Body)
+			} else {
+				c.Errf("paginate: %s not found", f)
+			}
+		}
+		c.Fact("paginate.codec", codec)
+
+		// (7) client side: what each ListX does to the page before handing it over (only ListTools
+		// filters: Model.filterOracle), and which ListX / items each iterator is built on
+		post := map[string][]string{}
+		for _, m := range []string{"ListTools", "ListPrompts", "ListResources", "ListResourceTemplates"} {
+			fd := c.Func("mcp", "ClientSession", m)
+			if fd == nil {
+				c.Errf("paginate: ClientSession.%s not found", m)
+				continue
+			}
+			w := []string{}
+			ast.Inspect(fd.Body, func(x ast.Node) bool {
+				if as, ok := x.(*ast.AssignStmt); ok {
+					for _, l := range as.Lhs {
+						if strings.HasPrefix(c.Src(l), "result.") {
+							w = append(w, c.Src(as))
+						}
+					}
+				}
+				return true
+			})
+			post[m] = w
+		}
+		c.Fact("paginate.client_list_postprocess", post)
+		its := map[string]string{}
+		for _, m := range []string{"Tools", "Prompts", "Resources", "ResourceTemplates"} {
+			fd := c.Func("mcp", "ClientSession", m)
+			if fd == nil {
+				c.Errf("paginate: ClientSession.%s not found", m)
+				continue
+			}
+			call := "?"
+			ast.Inspect(fd.Body, func(x ast.Node) bool {
+				if ce, ok := x.(*ast.CallExpr); ok && c.Src(ce.Fun) == "paginate" && len(ce.Args) == 4 {
+					call = c.Src(ce.Args[1]) + "," + c.Src(ce.Args[2]) + ";"
+					if fl, ok := ce.Args[3].(*ast.FuncLit); ok {
+						call += c.Src(fl.Body)
+					}
+				}
+				return true
+			})
+			its[m] = call
+		}
+		c.Fact("paginate.client_iterators", its)
 	})
 }
